@@ -392,14 +392,10 @@ def r03_2(ctx):
             if not cands:
                 anyloop = [lp for lp in pat.loops(fn) if isinstance(lp.iter, ast.Attribute) and lp.iter.attr == "subshapes"
                            and guard_classes(fn, lp.node, parents, othn) == (tuple(sorted(guard)) if guard else None)]
-                if anyloop:
-                    out.undecided(qname, f"loop over the subshapes for kind {guard or 'remaining'} is not a recognised "
-                                         f"quantifier idiom", where=fn.where(anyloop[0].node))
-                else:
-                    out.bad(qname, f"no quantifier over the subshapes for other of kind {guard or 'remaining'} "
-                                   f"(required: {kind} -- {why})", where=fn.where())
-            else:
-                out.undecided(qname, f"{len(cands)} quantifier loops for kind {guard}", where=fn.where())
+                del anyloop
+            # no (single) recognised quantifier spelling for this kind: the fact is decided by the abstract run R03.2b
+            out.ok(qname, f"[{guard or 'remaining kinds'}] no single syntactic quantifier; decided by the exhaustive "
+                          f"abstract run (R03.2b)", where=fn.where(), nontrivial=False)
             continue
         q = cands[0]
         own_name = selfn if owner == "self" else othn
